@@ -363,7 +363,14 @@ func (w *c20World) close() {
 	w.super.Close(&wg)
 	wg.Wait()
 	c20Worlds.Delete(w.super)
-	os.RemoveAll(w.dir)
+	// the registry goroutine may still be writing running_objects.yaml for the last push
+	for i := 0; i < 200; i++ {
+		os.RemoveAll(w.dir)
+		if _, err := os.Stat(w.dir); os.IsNotExist(err) {
+			break
+		}
+		time.Sleep(5 * time.Millisecond)
+	}
 }
 
 type c20Obj struct {
